@@ -77,4 +77,38 @@ PROPS = {
                       "the fall-through call to time.Parse is a call-through in the model (M = '-' there)"],
         assumptions=[],
     ),
+    "C04": dict(
+        lean_modules=["Enc.Props.C04"],
+        variants=V_DEFAULT, areas=["thrift."], allowed_native=["Enc.Lemmas.Thrift"],
+        trusted_base=["Spec.Thrift is the reference implementation (no Apache Thrift library offline): written from the public "
+                      "binary/compact protocol specifications", "io.Reader plumbing is modelled as reading from a byte list"],
+        assumptions=["union fields, embedded-struct flattening and unsigned kinds are outside the modelled universe"],
+        main_theorem="Enc.Props.C04 (round trip)",
+        rule="random struct types (ids in any order, gaps >15, spans >64, required/optional/enum, nested, pointers, lists, sets, "
+             "maps) x random values x {binary strict, binary non-strict, compact}: Unmarshal(Marshal(v)) vs canon(v), bytes vs "
+             "the Lean model, cross-protocol equality of decoded values, Encoder/Decoder.Reset vs fresh",
+    ),
+    "C08": dict(
+        lean_modules=["Enc.Props.C08"],
+        variants=V_DEFAULT, areas=["thrift."], allowed_native=["Enc.Lemmas.Thrift"],
+        trusted_base=["Spec.Thrift is the reference implementation (no Apache Thrift library offline): written from the public "
+                      "binary/compact protocol specifications", "io.Reader plumbing is modelled as reading from a byte list"],
+        assumptions=["union fields, embedded-struct flattening and unsigned kinds are outside the modelled universe"],
+        main_theorem="Enc.Props.C08 (totality, error classes, skipping)",
+        rule="for random types x values x 3 protocols: truncation at EVERY offset (error class must be unexpected-EOF, EOF only "
+             "for empty input), trailing byte, unknown field of every thrift type (nested structs, lists, maps, sets, compact "
+             "bool-in-header) inserted before the stop field, 4 mutations in strict/non-strict mode, allocation vs K*len; "
+             "directed: missing required field, strict type mismatch, huge declared sizes; all in a supervised child process",
+    ),
+    "C13": dict(
+        lean_modules=["Enc.Props.C13"],
+        variants=V_DEFAULT, areas=["thrift."], allowed_native=["Enc.Lemmas.Thrift"],
+        trusted_base=["Spec.Thrift is the reference implementation (no Apache Thrift library offline): written from the public "
+                      "binary/compact protocol specifications", "io.Reader plumbing is modelled as reading from a byte list"],
+        assumptions=["union fields, embedded-struct flattening and unsigned kinds are outside the modelled universe"],
+        main_theorem="Enc.Props.C13 (wire conformance)",
+        rule="random types x values x 3 protocols: Marshal's bytes vs the Lean model (byte for byte) and vs the Lean reference "
+             "encoder written from the Apache specifications; compact long-form re-encodings (field headers, list headers) must "
+             "decode to the same value; message headers for every type/name/seqid class",
+    ),
 }
